@@ -22,7 +22,7 @@ register_driver('util.resolve_limit.', 'history_native.py')
 register_driver('session.SessionManager._notify_sessions.', 'sessionmgr_native.py')
 register_driver('session.SessionManager.limited_history.', 'sessionmgr_native.py')
 for _f in ('_flush_compaction', 'clear_excess', '_cancel_compaction', '_compact_hashX', '_compact_prefix', '_compact_history',
-           'flush', 'backup', 'add_unflushed', 'write_state'):
+           'flush', 'backup', 'write_state'):
     register_driver('history.History.' + _f + '.', 'index_scenario.py')
 register_driver('db.DB.', 'index_scenario.py')
 register_driver('block_processor.BlockProcessor.', 'index_scenario.py')
@@ -30,3 +30,4 @@ register_driver('mempool.MemPool.', 'mempool_native.py')
 register_driver('session.SessionManager.merkle_branch', 'session_handlers.py')
 for _f in ('_notify_inner', 'notify', 'subscription_address_status', 'address_status', 'hashX_subscribe', 'send_notification'):
     register_driver('session.ElectrumX.' + _f + '.', 'notify_native.py')
+register_driver('history.History.add_unflushed.', 'history_native.py')
